@@ -62,7 +62,22 @@ fn version_of(v: u8) -> http::Version {
     }
 }
 
-pub const VIAS: [&str; 5] = ["client-pool", "client-nopool", "bare-pool-service", "connector-with-checks", "connector-bare"];
+pub const VIAS: [&str; 7] = ["client-pool", "client-nopool", "bare-pool-service", "connector-with-checks", "connector-bare", "connector-bare-tcp", "bare-pool-service-tcp"];
+
+/// resolver for the real `TcpTransport`: every name is 127.0.0.1 (the port comes from the URI)
+#[derive(Clone)]
+pub struct Loopback;
+impl tower::Service<Box<str>> for Loopback {
+    type Response = hyperdriver::client::conn::dns::SocketAddrs;
+    type Error = std::io::Error;
+    type Future = std::future::Ready<Result<Self::Response, std::io::Error>>;
+    fn poll_ready(&mut self, _cx: &mut std::task::Context<'_>) -> std::task::Poll<Result<(), Self::Error>> {
+        std::task::Poll::Ready(Ok(()))
+    }
+    fn call(&mut self, _host: Box<str>) -> Self::Future {
+        std::future::ready(Ok(["127.0.0.1:1".parse::<std::net::SocketAddr>().unwrap()].into_iter().collect()))
+    }
+}
 
 pub fn uris() -> Vec<(String, &'static str, &'static str)> {
     let mut v: Vec<(String, &'static str, &'static str)> = Vec::new();
@@ -99,7 +114,7 @@ pub fn uris() -> Vec<(String, &'static str, &'static str)> {
     for o in ["/", "/just/a/path?q=1", "/%41"] {
         v.push((o.to_string(), "origin-form", "none"));
     }
-    for a in ["example.com:443", "127.0.0.1:80", "[::1]:8080", "localhost:0"] {
+    for a in ["example.com:443", "127.0.0.1:80", "[::1]:8080", "localhost:0", "localhost", "example.com", "[::1]", "127.0.0.1"] {
         v.push((a.to_string(), "authority-form", "dns"));
     }
     v.push(("*".to_string(), "asterisk", "none"));
@@ -214,6 +229,32 @@ pub async fn run_case(c: &Case) -> (String, Vec<String>) {
                         Ok(st)
                     }
                     Err(e) => Err(format!("{e:?}")),
+                }
+            }
+            "connector-bare-tcp" | "bare-pool-service-tcp" => {
+                // the real TCP transport (host/port extraction, resolver, happy eyeballs) against loopback
+                let mut cfg = hyperdriver::client::conn::transport::tcp::TcpTransportConfig::default();
+                cfg.connect_timeout = Some(Duration::from_secs(2));
+                cfg.happy_eyeballs_timeout = Some(Duration::from_secs(1));
+                let tcp: hyperdriver::client::conn::transport::tcp::TcpTransport<Loopback, hyperdriver::stream::tcp::TcpStream> =
+                    hyperdriver::client::conn::transport::tcp::TcpTransport::builder().with_config(cfg).with_resolver(Loopback).build();
+                let t = tcp.with_optional_tls(tls_cfg.map(Arc::new));
+                let r = if via == "connector-bare-tcp" {
+                    let layer = hyperdriver::client::conn::connector::ConnectorLayer::new(t, HttpConnectionBuilder::<ChunkBody>::default());
+                    let mut svc = layer.layer(RequestExecutor::new());
+                    tokio::time::timeout(Duration::from_secs(5), async { svc.ready().await.map_err(|e| format!("{e:?}"))?.call(req).await.map_err(|e| format!("{e:?}")) }).await
+                } else {
+                    let svc = hyperdriver::client::ConnectionPoolService::<_, _, _, ChunkBody>::new(t, HttpConnectionBuilder::<ChunkBody>::default(), RequestExecutor::new(), hyperdriver::client::PoolConfig::default());
+                    tokio::time::timeout(Duration::from_secs(5), async { svc.oneshot(req).await.map_err(|e| format!("{e:?}")) }).await
+                };
+                match r {
+                    Err(_) => Err("timeout".into()),
+                    Ok(Ok(resp)) => {
+                        let st = resp.status();
+                        let _ = tokio::time::timeout(Duration::from_secs(5), resp.into_body().collect()).await;
+                        Ok(st)
+                    }
+                    Ok(Err(e)) => Err(e),
                 }
             }
             "bare-pool-service" => {
